@@ -78,3 +78,107 @@ Definition creg_eqb (a b : creg) : bool :=
 (* case: asked subject_type, asked sector_identifier_uri, the record found in the client database afterwards *)
 Definition chk_registered (c : option pystr * option pystr * creg) : bool :=
   let '(t, s, stored) := c in creg_eqb (registered_record t s) stored.
+
+(* ==== configured subject minters (session_params.sub_func) ====
+   EndpointContext.do_sub_func walks the configured dict in its order and stores, under each key, the object the entry
+   names ({"class": C, "kwargs": {...}} -> C(kwargs...); {"function": f} -> f; an entry with neither is skipped);
+   SessionManager.__init__ then fills in public_id / pairwise_id / ephemeral_id for the three standard keys that are
+   still absent; create_grant calls sub_func[sub_type](uid, salt=<session salt>, sector_identifier=<sector host>).
+   A minter is described by what it hashes: a fixed prefix, the user id, the sector (or not), and its own salt or -
+   when it has none - the session salt handed in by create_grant.  The library's own classes / functions: *)
+Inductive minter :=
+| MHash (prefix : pystr) (use_sector : bool) (own_salt : option pystr)
+| MFresh.
+Definition cls_PublicID (salt : pystr) : minter := MHash [] false (Some salt).     (* PublicID(salt=..): public_id(uid, self.salt) *)
+Definition cls_PairWiseID (salt : pystr) : minter := MHash [] true (Some salt).    (* PairWiseID(salt=..): pairwise_id(uid, sector, self.salt) *)
+Definition fn_public_id : minter := MHash [] false None.
+Definition fn_pairwise_id : minter := MHash [] true None.
+Definition fn_ephemeral_id : minter := MFresh.
+
+(* one entry of the configured dict *)
+Inductive centry := EMinter (m : minter) | ESkipped.
+
+(* do_sub_func: for key, args in sub_func.items(): self._sub_func[key] = ... *)
+Fixpoint load_sub_func (conf : list (pystr * centry)) (acc : list (pystr * minter)) : list (pystr * minter) :=
+  match conf with
+  | [] => acc
+  | (k, EMinter m) :: r => load_sub_func r (aset k m acc)
+  | (_, ESkipped) :: r => load_sub_func r acc
+  end.
+(* SessionManager.__init__: if "public" not in sub_func: sub_func["public"] = public_id ... *)
+Definition fill_default (k : pystr) (m : minter) (tbl : list (pystr * minter)) : list (pystr * minter) :=
+  if has_key k tbl then tbl else aset k m tbl.
+Definition minter_table (conf : list (pystr * centry)) : list (pystr * minter) :=
+  fill_default (PS "ephemeral") fn_ephemeral_id
+    (fill_default (PS "pairwise") fn_pairwise_id
+      (fill_default (PS "public") fn_public_id (load_sub_func conf []))).
+
+(* the dictionary key create_grant uses: _cinfo.get("subject_type") or "public" *)
+Definition type_key_of (r : creg) : pystr :=
+  match truthy (r_subject_type r) with None => PS "public" | Some t => t end.
+
+(* SPECIFICATION side: what the configuration says about key k (the last entry for k that names a minter; a Python dict
+   has one entry per key) and what serves a key nothing is configured for *)
+Fixpoint configured (conf : list (pystr * centry)) (k : pystr) : option minter :=
+  match conf with
+  | [] => None
+  | (k', e) :: r =>
+      match configured r k with
+      | Some m => Some m
+      | None => if str_eqb k k' then match e with EMinter m => Some m | ESkipped => None end else None
+      end
+  end.
+Definition default_minter (k : pystr) : option minter :=
+  if str_eqb k (PS "public") then Some fn_public_id
+  else if str_eqb k (PS "pairwise") then Some fn_pairwise_id
+  else if str_eqb k (PS "ephemeral") then Some fn_ephemeral_id else None.
+
+Section SubConf.
+  Variable H : pystr -> pystr.
+  Variable host_of : pystr -> pystr.
+
+  (* m(uid, salt=salt, sector_identifier=sector) *)
+  Definition mint (m : minter) (uid salt sector : pystr) (fresh : nat) : subval :=
+    match m with
+    | MHash p us own =>
+        SHash (H (p ++ uid ++ (if us then sector else []) ++ match own with Some s => s | None => salt end))
+    | MFresh => SFresh fresh
+    end.
+
+  (* sub_func[key](uid, salt=.., sector_identifier=..) on the table the provider built from its configuration *)
+  Definition table_sub (conf : list (pystr * centry)) (key uid salt sector : pystr) (fresh : nat) : subval :=
+    match assoc key (minter_table conf) with
+    | Some m => mint m uid salt sector fresh
+    | None => SKeyError
+    end.
+
+  Definition grant_sub_conf (conf : list (pystr * centry)) (r : creg) (redirect_uri uid salt : pystr) (fresh : nat) : subval :=
+    table_sub conf (type_key_of r) uid salt (host_of (sector_source r redirect_uri)) fresh.
+End SubConf.
+
+(* ---- correspondence for configured providers ---- *)
+(* case: hash table, host table, configuration (in dict order), client record, redirect_uri, uid, session salt, observed sub
+   (None when the generator configured a fresh-value minter for the client's type: only freshness is judged) *)
+Definition subc_case := (list (pystr * pystr) * list (pystr * pystr) * list (pystr * centry) * creg * pystr * pystr * pystr * option pystr)%type.
+Definition chk_subc (c : subc_case) : bool :=
+  let '(ht, hosts, conf, r, redirect, uid, salt, observed) := c in
+  match grant_sub_conf (table_hash ht) (table_host hosts) conf r redirect uid salt O, observed with
+  | SHash d, Some o => str_eqb d o
+  | SFresh _, None => true
+  | _, _ => false
+  end.
+(* case: hash table, configuration, key, uid, salt handed in, sector handed in, value the provider's sub_func[key] returned
+   (None when the generator's configuration makes a fresh-value minter serve that key: only freshness is judged, by the oracle) *)
+Definition table_case := (list (pystr * pystr) * list (pystr * centry) * pystr * pystr * pystr * pystr * option pystr)%type.
+Definition chk_table (c : table_case) : bool :=
+  let '(ht, conf, key, uid, salt, sector, observed) := c in
+  match table_sub (table_hash ht) conf key uid salt sector O, observed with
+  | SHash d, Some o => str_eqb d o
+  | SFresh _, None => true
+  | _, _ => false
+  end.
+(* the keys of the table, in order (dict order of the provider's sub_func after start-up) *)
+Definition chk_table_keys (c : list (pystr * centry) * list pystr) : bool :=
+  let '(conf, keys) := c in
+  let ks := map fst (minter_table conf) in
+  Nat.eqb (length ks) (length keys) && forallb (fun p => str_eqb (fst p) (snd p)) (combine ks keys).
